@@ -1,2 +1,142 @@
-(* C15 (under construction) *)
+(* C15 — matrix transpose is an exact, in-bounds permutation for every shape and type.
+   Model: Model/Transpose.v (hand-written mirror of cfavml-gemm/src/transpose/{mod.rs,impl_avx2.rs}),
+   parametric in the form of the two shape checks and in the two shuffle networks, which checks/c15.py
+   reads from the current source on every run; tied to the compiled code by running the real
+   `transpose_matrix::<T>` and this model on the same cases (checks/c15.py + harness/gemmh).
+   Sizes and indices are Z (usize values); [two64] = 2^64. *)
+From Coq Require Import List ZArith Bool.
 From CF Require Import Model.Transpose Proofs.TransposeProofs.
+Import ListNotations.
+Open Scope Z_scope.
+
+(* (a) The in-register shuffle networks of impl_avx2.rs — unpacklo/unpackhi, shuffle_ps 0x44/0xEE,
+   permute2f128 0x20/0x31 (f32: 8 registers of 8 lanes) and unpacklo/hi_pd, permute2f128
+   _MM_SHUFFLE(0,0,0,2)/_MM_SHUFFLE(0,3,0,1) (f64: 4 registers of 4 lanes) — map ANY 8x8 (4x4) block of
+   lanes of ANY element type to its mathematical transpose. *)
+Theorem C15_reg_transpose_f32 : forall (T : Type) (m : list (list T)),
+  length m = 8%nat -> Forall (fun r => length r = 8%nat) m ->
+  run_network net_f32 m = map (fun c => flat_map (fun row => firstn 1 (skipn c row)) m) (seq 0 8).
+Proof. exact (fun T m Hl HF => reg_transpose_f32 T m (conj Hl HF)). Qed.
+
+Theorem C15_reg_transpose_f64 : forall (T : Type) (m : list (list T)),
+  length m = 4%nat -> Forall (fun r => length r = 4%nat) m ->
+  run_network net_f64 m = map (fun c => flat_map (fun row => firstn 1 (skipn c row)) m) (seq 0 4).
+Proof. exact (fun T m Hl HF => reg_transpose_f64 T m (conj Hl HF)). Qed.
+
+(* (b) For every element type T and value, both forms of either shape check, both profiles, every element
+   kind (32-bit / 64-bit / other), with and without AVX2, EVERY width and height whose product fits a usize,
+   every input and every initial content of the result buffer of that length: the call returns, the result
+   keeps its length, result[i*height + j] = data[j*width + i] for all i < width, j < height, every logged
+   access (loads from data, stores to result) lies inside [0, width*height) — an access outside its slice
+   would have produced Fault — and every result cell is covered by a store. *)
+Theorem C15_permutation :
+  forall (T : Type) (outer inner : mulform) (debug : bool) (k : kind) (avx2 : bool) (w h : Z)
+         (data result : list T),
+    0 <= w -> 0 <= h -> w * h < two64 ->
+    zlen data = w * h -> zlen result = w * h ->
+    exists s', transpose_matrix (std_cfg outer inner) debug k avx2 w h data result = Ok s' /\
+      length (res s') = length result /\
+      (forall i j, 0 <= i < w -> 0 <= j < h ->
+         exists v, zget (res s') (i * h + j) = Some v /\ zget data (j * w + i) = Some v) /\
+      Forall (fun e => 0 <= ev_idx e /\ 0 <= ev_len e /\ ev_idx e + ev_len e <= w * h) (log s') /\
+      (forall x, 0 <= x < w * h ->
+         exists e, In e (log s') /\ ev_wr e = true /\ ev_idx e <= x < ev_idx e + ev_len e).
+Proof.
+  exact (fun T outer inner debug k avx2 w h data result =>
+           transpose_matrix_correct T (std_cfg outer inner) debug k avx2 w h data result
+                                    (std_cfg_wf outer inner)).
+Qed.
+
+(* the same for the two public `unsafe fn` AVX2 entry points called as documented *)
+Theorem C15_avx2_entries :
+  forall (T : Type) (outer inner : mulform) (debug : bool) (w h : Z) (data result : list T),
+    0 < w -> 0 < h -> w * h < two64 -> zlen data = w * h -> zlen result = w * h ->
+    (exists s, f32_xany_avx2_nofma_transpose (std_cfg outer inner) debug w h data result = Ok s
+               /\ transposed w h data result s) /\
+    (exists s, f64_xany_avx2_nofma_transpose (std_cfg outer inner) debug w h data result = Ok s
+               /\ transposed w h data result s).
+Proof.
+  exact (fun T outer inner debug w h data result =>
+           avx2_entries_correct T (std_cfg outer inner) debug w h data result (std_cfg_wf outer inner)).
+Qed.
+
+(* (c) Shape mismatches.  [no_wrap_form f debug] = the product expression cannot wrap: the
+   `checked_mul(..).expect(..)` form in any profile, or the plain `width * height` in the debug profile.
+   Then ANY call whose data length is not the mathematical product width*height, or whose result length
+   differs from the data length, panics: in the assert when the product fits a usize, in the overflow
+   check / expect when it does not.  No bound on width and height. *)
+Theorem C15_rejects :
+  forall (T : Type) (cfg : tcfg) (debug : bool) (k : kind) (avx2 : bool) (w h : Z) (data result : list T),
+    no_wrap_form (chk_outer cfg) debug = true ->
+    (zlen data <> w * h \/ zlen result <> zlen data) ->
+    transpose_matrix cfg debug k avx2 w h data result
+    = if w * h <? two64 then PanicAssert else PanicOverflow.
+Proof. exact transpose_matrix_rejects. Qed.
+
+(* For the plain product in the release profile the full statement is FALSE (next theorem); what holds
+   is the statement guarded by "the product does not overflow" (every form, every profile). *)
+Theorem C15_rejects_no_overflow :
+  forall (T : Type) (cfg : tcfg) (debug : bool) (k : kind) (avx2 : bool) (w h : Z) (data result : list T),
+    0 <= w -> 0 <= h -> w * h < two64 ->
+    (zlen data <> w * h \/ zlen result <> zlen data) ->
+    transpose_matrix cfg debug k avx2 w h data result = PanicAssert.
+Proof. exact transpose_matrix_rejects_no_overflow. Qed.
+
+(* `assert_eq!(data.len(), width * height)` in a release build: width = 2^63, height = 2 and two EMPTY
+   slices pass both asserts (the product wraps to 0) and the first element access is out of bounds — for
+   every element kind and both routes; and whatever form the inner check of generic_transpose has, the
+   scalar route (every type other than f32/u32/f64/u64) is reached without any further check. *)
+Theorem C15_rejects_refuted :
+  exists (w h : Z) (data result : list unit),
+    0 <= w < two64 /\ 0 <= h < two64 /\ zlen data <> w * h /\
+    (forall k avx2, transpose_matrix (std_cfg MulPlain MulPlain) false k avx2 w h data result = Fault) /\
+    (forall inner avx2, transpose_matrix (std_cfg MulPlain inner) false KOther avx2 w h data result = Fault).
+Proof. exact transpose_matrix_rejects_refuted. Qed.
+
+(* the shape check of generic_transpose, reached directly through the public AVX2 entry points *)
+Theorem C15_avx2_entries_reject :
+  forall (T : Type) (cfg : tcfg) (debug : bool) (w h : Z) (data result : list T),
+    no_wrap_form (chk_inner cfg) debug = true ->
+    (zlen data <> w * h \/ zlen result <> zlen data) ->
+    f32_xany_avx2_nofma_transpose cfg debug w h data result
+      = (if w * h <? two64 then PanicAssert else PanicOverflow) /\
+    f64_xany_avx2_nofma_transpose cfg debug w h data result
+      = (if w * h <? two64 then PanicAssert else PanicOverflow).
+Proof. exact avx2_entries_reject. Qed.
+
+Theorem C15_avx2_entries_reject_refuted :
+  exists (w h : Z) (data result : list unit),
+    0 <= w < two64 /\ 0 <= h < two64 /\ zlen data <> w * h /\
+    forall outer,
+      f32_xany_avx2_nofma_transpose (std_cfg outer MulPlain) false w h data result = Fault /\
+      f64_xany_avx2_nofma_transpose (std_cfg outer MulPlain) false w h data result = Fault.
+Proof. exact avx2_entry_rejects_refuted. Qed.
+
+(* (d) Transposing a width x height matrix and then the height x width result restores the input, whatever
+   the two result buffers held before. *)
+Theorem C15_involution :
+  forall (T : Type) (outer inner : mulform) (debug : bool) (k : kind) (avx2 : bool) (w h : Z)
+         (data r0 r1 : list T),
+    0 <= w -> 0 <= h -> w * h < two64 ->
+    zlen data = w * h -> zlen r0 = w * h -> zlen r1 = w * h ->
+    exists s1 s2,
+      transpose_matrix (std_cfg outer inner) debug k avx2 w h data r0 = Ok s1 /\
+      transpose_matrix (std_cfg outer inner) debug k avx2 h w (res s1) r1 = Ok s2 /\
+      res s2 = data.
+Proof.
+  exact (fun T outer inner debug k avx2 w h data r0 r1 =>
+           transpose_involution T (std_cfg outer inner) debug k avx2 w h data r0 r1 (std_cfg_wf outer inner)).
+Qed.
+
+Check C15_permutation. Check C15_rejects. Check C15_rejects_refuted. Check C15_involution.
+
+(* Non-vacuity: a 19 x 18 f32 matrix goes through one 16 x 16 block (four 8 x 8 register transposes), the
+   row tail and the column tail, and comes out transposed: 4*8 vector stores + 3*16 + 2*19 scalar stores. *)
+Example C15_nonvacuous :
+  let data := map Z.of_nat (seq 0 (19 * 18)) in
+  match transpose_matrix (std_cfg MulPlain MulPlain) false K32 true 19 18 data (map (fun _ => -1) data) with
+  | Ok s => res s = flat_map (fun i => map (fun j => j * 19 + i) (map Z.of_nat (seq 0 18))) (map Z.of_nat (seq 0 19))
+            /\ length (filter ev_wr (log s)) = (4 * 8 + 3 * 16 + 2 * 19)%nat
+  | _ => False
+  end.
+Proof. vm_compute. split; reflexivity. Qed.
